@@ -1528,7 +1528,11 @@ func nestingTested(p *Program, fn *ssa.Function) bool {
 				pr, tn = strings.TrimPrefix(pk, modPath+"/"), n
 			}
 			for _, m := range p.methodsDeclaredOn(pr, tn) {
-				if m.Name() != "Exit"+strings.TrimPrefix(fn.Name(), "Enter") {
+				pair := "Exit" + strings.TrimPrefix(fn.Name(), "Enter")
+				if strings.HasPrefix(fn.Name(), "Exit") {
+					pair = "Enter" + strings.TrimPrefix(fn.Name(), "Exit")
+				}
+				if m.Name() != pair {
 					continue
 				}
 				a := getStateAn(p)
